@@ -45,9 +45,11 @@ def parseConfig (j : Json) : Option (Config × List (Bytes × Bytes)) := do
     { svc := sb (strField r "svc"), opts := (arrField r "opts").toList.filterMap parseOpt }
   let rules : List Rule := (arrField j "rules").toList.map fun r =>
     { selector := sb (strField r "selector"), main := { parseBinding r with nested := false },
-      additional := ((arrField r "additional").toList.map parseBinding) ++
-        -- a main binding marked nested carries one extra (nested-free) additional binding "/nested"
-        (if boolField r "nested" then [{ hasPattern := true, httpMethod := sb "GET", template := sb "/nested", body := [], respBody := [], nested := false }] else []) }
+      additional :=
+        -- a main binding marked nested carries one extra (nested-free) additional binding "/nested",
+        -- which the harness puts in front of the rule's other additional bindings
+        (if boolField r "nested" then [{ hasPattern := true, httpMethod := sb "GET", template := sb "/nested", body := [], respBody := [], nested := false }] else []) ++
+        ((arrField r "additional").toList.map parseBinding) }
   let probes : List (Bytes × Bytes) := (arrField j "probes").toList.filterMap fun p =>
     match p with
     | .arr #[.str m, .str u] => some (sb m, sb u)
